@@ -190,7 +190,7 @@ class Body:
         if k == "goto":
             return [t[1]]
         if k == "switch":
-            discr = t[1]
+            discr = self._const_discr(bb, t[1])
             arms = t[2]
             if discr[0] == "k" and isinstance(discr[2], (bool, int)):
                 v = int(discr[2])
@@ -212,6 +212,20 @@ class Body:
         if k == "assert":
             return [t[3]]
         return []
+
+    def _const_discr(self, bb, discr):
+        """`_n = const b; switch move _n`: cfg!(debug_assertions) and friends in release MIR"""
+        l = op_local(discr)
+        if l is None:
+            return discr
+        found = None
+        for s in self.blocks[bb]["s"]:
+            if s[0] == "=" and s[1][0] == l:
+                if len(s[1]) == 1 and s[2][0] == "use" and s[2][1][0] == "k" and isinstance(s[2][1][2], (bool, int)):
+                    found = s[2][1]
+                else:
+                    found = None
+        return found if found is not None else discr
 
     @property
     def succ(self):
@@ -432,6 +446,11 @@ class Body:
                     self._origins_place(o[1], proj, res, seen, through_calls, depth + 1)
             elif k == "agg":
                 kind = rv[1]
+                # `(x as Variant).f` of an enum aggregate: only the matching variant can flow here
+                if proj and isinstance(kind, dict) and "adt" in kind and proj[0].startswith("as "):
+                    if proj[0][3:] != kind["variant"]:
+                        continue
+                    proj = proj[1:]
                 # projection into a field of the aggregate: follow that operand
                 if proj and isinstance(kind, dict) and "adt" in kind and proj[0] in kind["fields"]:
                     o = rv[2][kind["fields"].index(proj[0])]
